@@ -46,7 +46,7 @@ def run(tier: str) -> int:
             rep.machinery("stub model: mutant no_del_marker not detected")
         n = 48 if quick else 600
         jobs = [{"tid": k + 1, "seed": seed * 13 + k, "npatches": k % 4, "nops": 4 + k % 4, "patch_ops": 6 + k % 5,
-                 "concrete": k % 2 == 0} for k in range(n)]
+                 "concrete": k % 2 == 0, "sparse": k % 3 == 1} for k in range(n)]
         traces, meta = h5run.run_histories(jobs, wd, module="harness.stubworker", stall=60)
         if meta["crashes"]:
             t, tb = next(iter(meta["crashes"].items()))
